@@ -1,9 +1,20 @@
-(* C02 -- property theorems only. *)
+(* C02 -- property theorems only.  Each is closed by [exact] of a lemma proved in
+   Proofs/C02.v (or Lib/C02PathNorm.v); Print Assumptions beneath each.
+
+   Reading guide.  [traverser_call root q] is the model of
+   ResourceTreeTraverser(root)(request) (Model/C02.v, data-like parts regenerated
+   from the source).  [walk_outcome root segs ctx consumed rest] is the property's
+   wording: segs = consumed ++ rest, item lookup along [consumed] from the root
+   reaches [ctx], no consumed segment starts with '@@', and [rest] is empty or
+   its head starts with '@@' or cannot be looked up in [ctx]. *)
 From Coq Require Import List NArith ZArith Bool.
 Import ListNotations.
-Require Import Verif.Lib.Wire Verif.Lib.Text Verif.Lib.PathNorm Verif.Lib.C02Expr Verif.Gen.Facts_C02
-               Verif.Model.C02 Verif.Proofs.C02.
+Require Import Verif.Lib.Wire Verif.Lib.Text Verif.Lib.PathNorm Verif.Lib.C02PathNorm Verif.Lib.C02Expr
+               Verif.Gen.Facts_C02 Verif.Model.C02 Verif.Proofs.C02 Verif.Proofs.C02_memo.
+Close Scope N_scope.
 
+(* the regenerated source facts are the ones the proofs were written against
+   (in particular: vpath_tuple = vroot_tuple + split_path_info(path)) *)
 Theorem C02_facts_ok :
   view_selector = spec_selector /\ selector_len = 2%Z /\
   ret_selector = mkRet ROb (SSegFrom 2) slice_from_next slice_traversed RVroot TVrootTuple RRoot /\
@@ -13,3 +24,138 @@ Theorem C02_facts_ok :
   vpath_tuple_mode = VSeparate /\ vroot_idx_off = (-1)%Z /\ vroot_idx_absent = (-1)%Z.
 Proof. exact facts_ok. Qed.
 Print Assumptions C02_facts_ok.
+
+(* trav_context / trav_view_name / trav_subpath / trav_vroot, for every tree,
+   request and virtual root: context = resource reached by the consumed
+   segments, view name and subpath from the rest, virtual root = resource at the
+   virtual-root segments when the walk gets that far (then the context lies in
+   its subtree and the consumed path starts with those segments), else the root.
+   [traversed] is stated as the code computes it (see the C02_traversed theorems). *)
+Theorem C02_traverser_resolves : forall root q d,
+  traverser_call root q = Ok d ->
+  exists path sub vt ctx consumed rest,
+    path_and_subpath q = Ok (path, sub) /\ vroot_tuple_of q = Ok vt /\
+    walk_outcome root (vt ++ split_path_info path) ctx consumed rest /\
+    t_context d = fst ctx /\
+    t_view_name d = view_name_of rest /\
+    t_subpath d = subpath_of sub rest /\
+    t_traversed d = consumed ++ firstn (length vt) rest /\
+    t_virtual_root_path d = vt /\ t_root d = fst root /\
+    ((length vt <= length consumed /\
+        exists v c', descend root vt = Some v /\ t_virtual_root d = fst v /\ consumed = vt ++ c' /\
+                     descend v c' = Some ctx /\ exists suffix, t_context d = fst v ++ suffix)
+     \/ (length consumed < length vt /\ t_virtual_root d = fst root /\
+         exists more, more <> [] /\ vt = consumed ++ more)).
+Proof. exact traverser_resolves. Qed.
+Print Assumptions C02_traverser_resolves.
+
+(* the wording determines the outcome: there is exactly one (context, consumed, rest) *)
+Theorem C02_walk_outcome_unique : forall ob segs c1 p1 r1 c2 p2 r2,
+  walk_outcome ob segs c1 p1 r1 -> walk_outcome ob segs c2 p2 r2 -> (c1, p1, r1) = (c2, p2, r2).
+Proof. exact walk_outcome_unique. Qed.
+Print Assumptions C02_walk_outcome_unique.
+
+(* "deepest resource reached": consumed = the longest walkable prefix *)
+Theorem C02_consumed_is_longest : forall ob segs ctx c r,
+  walk_outcome ob segs ctx c r ->
+  spec_consumed ob segs = c /\
+  forall k, k <= length segs -> (walkable ob (firstn k segs) = true <-> k <= length c).
+Proof. exact consumed_is_longest. Qed.
+Print Assumptions C02_consumed_is_longest.
+
+(* the code equals the executable specification (the one the harness judges the
+   implementation with) up to the [traversed] slice *)
+Theorem C02_traverser_call_outcome : forall root q,
+  traverser_call root q = traverser_gen model_outcome root q /\
+  spec_traverser root q = traverser_gen spec_outcome root q.
+Proof. intros root q. split; [exact (traverser_call_outcome root q)|exact (spec_traverser_gen root q)]. Qed.
+Print Assumptions C02_traverser_call_outcome.
+
+(* trav_traversed.  Full-strength statement (FALSE of the code, kept here):
+     forall root q, traverser_call root q = spec_traverser root q
+   i.e. traversed = consumed for every request. *)
+Theorem C02_traversed_partial : forall root q,
+  q_vroot q = None -> traverser_call root q = spec_traverser root q.
+Proof. exact traverser_no_vroot_meets_spec. Qed.
+Print Assumptions C02_traversed_partial.
+
+Theorem C02_traversed_partial_exhausted : forall root vt ps sub,
+  vt = [] \/ spec_consumed root (vt ++ ps) = vt ++ ps ->
+  model_outcome root vt ps sub = spec_outcome root vt ps sub.
+Proof. exact model_outcome_partial. Qed.
+Print Assumptions C02_traversed_partial_exhausted.
+
+(* witness: HTTP_X_VHM_ROOT=/a, PATH_INFO=/x/y, x missing under /a *)
+Theorem C02_traversed_refuted :
+  exists d s, traverser_call ([], wit_tree) wit_traversed = Ok d /\
+              spec_traverser ([], wit_tree) wit_traversed = Ok s /\
+              t_traversed s = [ta] /\ t_traversed d = [ta; tx] /\ d <> s.
+Proof. exact traversed_refuted. Qed.
+Print Assumptions C02_traversed_refuted.
+
+(* trav_vroot for the source form that joins vroot text and path text before
+   normalising (the unrepaired tree): refuted, '..' escapes the virtual root.
+   Witness HTTP_X_VHM_ROOT=/a, PATH_INFO=/../b/x.  For the repaired form the
+   positive statement is part of C02_traverser_resolves. *)
+Theorem C02_vroot_refuted_joined :
+  exists d s v, traverser_call_mode VJoined ([], wit_tree) wit_escape = Ok d /\
+                spec_traverser ([], wit_tree) wit_escape = Ok s /\
+                descend ([], wit_tree) [ta] = Some v /\
+                t_virtual_root_path d = [ta] /\ t_virtual_root s = fst v /\
+                t_virtual_root d <> fst v /\ t_context d = [1; 0] /\ t_context s = [0; 0] /\ d <> s.
+Proof. exact vroot_refuted_joined. Qed.
+Print Assumptions C02_vroot_refuted_joined.
+
+(* trav_normalises *)
+Theorem C02_segments_normal : forall vp p,
+  Forall normal_seg (split_path_info vp ++ split_path_info p).
+Proof. exact traverser_segments_normal. Qed.
+Print Assumptions C02_segments_normal.
+
+Theorem C02_traversal_path_normal : forall p l,
+  (traversal_path_info p = Ok l -> Forall normal_seg l) /\ (traversal_path p = Ok l -> Forall normal_seg l).
+Proof. intros p l. split; [exact (tpi_normal p l)|exact (tp_normal p l)]. Qed.
+Print Assumptions C02_traversal_path_normal.
+
+Theorem C02_path_normal_form : forall root q1 q2 p1 p2 sub,
+  path_and_subpath q1 = Ok (p1, sub) -> path_and_subpath q2 = Ok (p2, sub) ->
+  q_vroot q1 = q_vroot q2 -> split_path_info p1 = split_path_info p2 ->
+  traverser_call root q1 = traverser_call root q2.
+Proof. exact traverser_path_normal_form. Qed.
+Print Assumptions C02_path_normal_form.
+
+(* '..' at the top of the request path is absorbed: never above the root, and
+   (repaired code) never above the virtual root *)
+Theorem C02_dotdot_at_root : forall root p md vr,
+  traverser_call root (mkReq (Some (slash :: dot :: dot :: slash :: p)) md vr)
+  = traverser_call root (mkReq (Some (slash :: p)) md vr).
+Proof. exact traverser_dotdot_at_root. Qed.
+Print Assumptions C02_dotdot_at_root.
+
+Theorem C02_spi_never_above_root : forall k p,
+  split_path_info (updirs k (slash :: p)) = split_path_info (slash :: p).
+Proof. exact spi_updirs. Qed.
+Print Assumptions C02_spi_never_above_root.
+
+Theorem C02_spi_stack_law : forall a b,
+  split_path_info (a ++ slash :: b) = rev (resolve (rev (split_path_info a)) (split_on slash b)).
+Proof. exact spi_app. Qed.
+Print Assumptions C02_spi_stack_law.
+
+(* trav_history_free: with the LRU cache of split_path_info in ANY state that
+   earlier calls can have produced, every answer of every later history equals
+   the cache-free answer *)
+Theorem C02_history_free : forall maxsize c0 (qs : list (rnode * request)),
+  cache_ok split_path_info c0 ->
+  map fst (run_history maxsize c0 qs) = map (fun rq => traverser_call (fst rq) (snd rq)) qs.
+Proof. exact history_free. Qed.
+Print Assumptions C02_history_free.
+
+(* functools.lru_cache / dictionary memo tables in general (any key type whose
+   equality test implies equality, any function, any bound) *)
+Theorem C02_memo_transparent : forall (K V : Type) (eqb : K -> K -> bool) (f : K -> V) (maxsize : nat),
+  (forall a b, eqb a b = true -> a = b) ->
+  forall c k, cache_ok f c ->
+  fst (memo_call eqb f maxsize c k) = f k /\ cache_ok f (snd (memo_call eqb f maxsize c k)).
+Proof. exact (@memo_call_correct). Qed.
+Print Assumptions C02_memo_transparent.
